@@ -42,8 +42,8 @@ for pid in ids:
             "evidence_file": "evidence/%s.json" % pid,
             "replay_cmd_template": "./check %s --replay {path}" % pid,
             "engine": "symx",
-            "level_claimed": {"category": c.get("LEVEL", "other"), "text": c["CLAIM"], "design_ref": "DESIGN.md section 5, " + pid},
-            "level_note": c.get("NOTE", ""),
+            "level_claimed": {"category": c.get("LEVEL", "other"), "text": (c["CLAIM"] + " " + c.get("CLAIM_EXTRA", "")).strip(), "design_ref": "DESIGN.md section 5, " + pid + "; Part A"},
+            "level_note": "; ".join(x for x in (c.get("NOTE", ""), c.get("NOTE_EXTRA", "")) if x),
             "technique": c.get("TECHNIQUE", "symbolic execution of the real Python on a substitute tensorflow, obligations decided by z3 (SMT)"),
         }
     )
